@@ -37,6 +37,9 @@ def ident(rng, used, style):
             s = rng.choice(HOSTILE)
             if s in used:
                 s = s + rng.choice(string.ascii_lowercase + "_0")
+        elif style == "punctuated":
+            # names that are legal netCDF / xarray dimension names without being identifiers (a hyphen or a dot inside)
+            s = rng.choice(["xi", "eta", "s", "x", "lon", "grid"]) + rng.choice("-.") + rng.choice(["rho", "psi", "w", "c", "n", "u", "1"])
         else:
             s = rng.choice(string.ascii_letters) + "".join(
                 rng.choice(string.ascii_letters + string.digits + "_") for _ in range(rng.randint(0, 5)))
@@ -60,6 +63,8 @@ def gen_case(rng, i, tier):
                 "conflict": rng.random() < 0.1}
     kind = rng.choice(["1d", "2d", "2dv", "3d"])
     nax = {"1d": 1, "2d": 2, "2dv": 3, "3d": 3}[kind]
+    if i % 5 == 3:
+        style = "punctuated"
     spec = {}
     for a in "XYZ"[:nax]:
         n = rng.randint(1, 5)
